@@ -231,12 +231,16 @@ CLAIMS = {
        "`:=` - and map all of them to one token, so the spellings cannot differ in meaning; (b) the access-clause builder stores negation = "
        "'a prefix not was parsed' and the query / (operator, operator-level not) pair exactly as parsed; (c) the type-block parser stores "
        "`AWS::X::Y { .. }` as the query Resources . * [ Type == 'AWS::X::Y' ] (key, all values, one un-named filter with the single un-negated "
-       "all-values clause `Type == <the block's own type name>`). At evaluation level (C01 obligations) `this` continues with the same value. "
+       "all-values clause `Type == <the block's own type name>`); (d) string literals: one worker parameterised by the delimiter - opening quote, "
+       "scan stop, closing quote and the restoration of an escaped quote all use the ONE delimiter given, text is kept verbatim, and the "
+       "worker is offered once per quote character. At evaluation level: the type-block fold and the query-block fold are both the "
+       "documented one (so a type block and its filter spelling evaluate alike), `this` continues with the same value, `.n` on a list is "
+       "the `[n]` lookup. "
        "Candidates are replayed by loading the same rules file in two documented spellings (19 pairs, incl. comments / blank lines, quotes, "
        "`.1` vs `[1]`, `this.`, type block vs filter, implicit default rule) and comparing statuses and exit codes.",
   note="NOT decided (they live inside nom, which CBMC cannot run even on 2 symbolic bytes and whose closures engine B treats as opaque): "
-       "indentation, blank lines, trailing spaces, line breaks inside lists / filters, comments, single vs double quoting, `.n` vs `[n]` "
-       "at parse level, the implicit default rule. These appear only in the native replay battery, i.e. they are exercised when some obligation "
+       "indentation, blank lines, trailing spaces, line breaks inside lists / filters, comments, `.n` vs `[n]` at parse level, the implicit "
+       "default rule. These appear only in the native replay battery, i.e. they are exercised when some obligation "
        "is refuted, not decided by a solver. No Kani harness serves this property.",
   design="0b/C14"),
  "C15": dict(
